@@ -857,6 +857,8 @@ def run(ctx):
                                     if not (cmp_.get("k") == "bin" and cmp_["op"] in ("<", "<=", ">", ">=")):
                                         continue
                                     l_, r_ = hirq.render(cmp_["l"]), hirq.render(cmp_["r"])
+                                    # (the index variable itself is compared — not an element it selects: `v[i] > limit` is a test of the value)
+                                    l_, r_ = re.sub(r"\[[^\]]*\]", "[]", l_), re.sub(r"\[[^\]]*\]", "[]", r_)
                                     li, ri = re.search(r"\b%s\b" % re.escape(I), l_), re.search(r"\b%s\b" % re.escape(I), r_)
                                     if bool(li) == bool(ri):
                                         continue
